@@ -231,7 +231,10 @@ class EquationSolver(object):
         T = self.ParameterInitialSteadyStateMaxTime
         new_solver.Parser.MaxTime = T
         new_solver.MaxIterations = 1000
-        new_solver.Parser.Err_Tolerance = self.ParameterInitialSteadyStateErrorToler
+        # Each period of the search is solved at least as tightly as the model itself will be: the
+        # steady state tolerance bounds the movement between periods, not the sloppiness of a period's solution.
+        new_solver.Parser.Err_Tolerance = min(self.ParameterInitialSteadyStateErrorToler,
+                                              float(self.Parser.Err_Tolerance))
         # Fix exogenous to be constants
         for var, dummy in new_solver.Parser.Exogenous:
             val = [new_solver.TimeSeries[var][0], ] * (T + 1)
